@@ -18,7 +18,7 @@ for pid in ALL:
         evidence_file="evidence/%s.json" % pid,
         replay_cmd_template="./check %s --replay {path}" % pid,
         engine="coq-model+correspondence",
-        level_claimed=dict(category="proof", text=c["level_text"], design_ref=c.get("design_ref", "DESIGN.md section 7")),
+        level_claimed=dict(category="proof", text=c["level_text"], design_ref=c.get("design_ref", "DESIGN.md sections 6 (theorems) and 7 (readings)")),
         level_note=c["level_note"],
         technique=c["technique"],
     ))
